@@ -1,17 +1,21 @@
 //! C19 — ordered-set collections keep insertion order and key uniqueness over all op sequences.
 //!
-//! Element types: `u8` (the key is the value; the library's own `KeyComparable for u8`) and `Pair {k, p}`
-//! (the key is the projection `k`, the payload `p` tells replaced/kept elements apart).
-//! (a) E2 to closure: `OrderedSet` under append / prepend / replace / update / remove with every argument
-//!     (replace: every (current key, update element) pair, present or not), from start sets built by new(),
-//!     TryFrom<Vec>, FromIterator and serde; state = the REAL set (fingerprint = construction path + its Vec
-//!     contents), reference = duplicate-free `Vec`.
-//! (b) E1 complete: `OrderedSet` built from every vector <= n: `TryFrom<Vec>`, `FromIterator` (honest, loose and
-//!     lying size hints), serde.
-//! (c) E2 to closure: `OneOrSet` from every `new_one` under `append`.
-//! (d) E1 complete: `OneOrSet` constructors (`new_set`, `TryFrom<Vec>`, `TryFrom<OrderedSet>`, serde arrays and
-//!     scalars, malformed JSON), `map` / `try_map` with key-collapsing and failing functions.
-//! (e) E1 complete: `OneOrMany` push sequences, `From<Vec>`, `FromIterator` with honest and lying hints, serde.
+//! Element types: `u8` (the key is the value; the library's own `KeyComparable for u8`), `Pair {k, p}`
+//! (the key is the projection `k`, the payload `p` tells replaced/kept elements apart) and `Nest {k, m}` (an object
+//! whose payload is itself a `OneOrMany<u8>` in one of three shapes: nested collections through the untagged serde).
+//! (a) E2 to closure: `OrderedSet` under append / prepend / replace / update / remove / clear with every argument
+//!     (replace: every (current key, update element) pair, present or not; remove / replace additionally with the
+//!     key given through an ELEMENT of every payload), from start sets built by new(), Default, TryFrom<Vec>,
+//!     FromIterator, serde, with_capacity + append and From<OneOrSet>; state = the REAL set (fingerprint =
+//!     construction path + its Vec contents), reference = duplicate-free `Vec`.
+//! (b) E1 complete: `OrderedSet` built from every vector <= n: `TryFrom<Vec>`, `FromIterator` (16 size-hint
+//!     behaviours; judged in full where the hint is honest for the item count, invariants only where it lies), serde.
+//! (c) E2 to closure: `OneOrSet` from every start value (new_one, From<T>, TryFrom<Vec>, new_set, serde array,
+//!     TryFrom<OrderedSet> of a set shrunk by remove) under `append`.
+//! (d) E1 complete: `OneOrSet` constructors (`From<T>`, `new_set` / `TryFrom<OrderedSet>` x 5 ways of building the
+//!     operand, `TryFrom<Vec>`, serde arrays and scalars, malformed JSON), `map` / `try_map` with key-collapsing and
+//!     failing functions on sources built by TryFrom<Vec>, serde and new_one + append.
+//! (e) E1 complete: `OneOrMany` push sequences, `From<Vec>`, `FromIterator` with the same 16 hints, serde.
 
 use identity_core::common::{KeyComparable, OneOrMany, OneOrSet, OrderedSet};
 use identity_core::convert::{FromJson, ToJson};
@@ -32,6 +36,19 @@ struct Pair {
   p: char,
 }
 impl KeyComparable for Pair {
+  type Key = u8;
+  fn key(&self) -> &u8 {
+    &self.k
+  }
+}
+/// An object element whose payload is a nested collection. Built from the public enum variants only (no library
+/// code runs in `make`). Shapes: 0 = `Many([])`, 1 = `One(k)`, 2 = `Many([k, k])`.
+#[derive(Clone, PartialEq, Eq, Hash, Debug, Serialize, Deserialize)]
+struct Nest {
+  k: u8,
+  m: OneOrMany<u8>,
+}
+impl KeyComparable for Nest {
   type Key = u8;
   fn key(&self) -> &u8 {
     &self.k
@@ -61,6 +78,51 @@ impl Elem for Pair {
   fn enc(&self) -> Code {
     (self.k, self.p as u8 - b'a')
   }
+}
+impl Elem for Nest {
+  const NAME: &'static str = "Nest";
+  fn make(c: Code) -> Nest {
+    let m = match c.1 {
+      0 => OneOrMany::Many(vec![]),
+      1 => OneOrMany::One(c.0),
+      _ => OneOrMany::Many(vec![c.0, c.0]),
+    };
+    Nest { k: c.0, m }
+  }
+  fn enc(&self) -> Code {
+    let p = match &self.m {
+      OneOrMany::Many(v) if v.is_empty() => 0,
+      OneOrMany::One(_) => 1,
+      OneOrMany::Many(_) => 2,
+    };
+    (self.k, p)
+  }
+}
+/// Run `$body` with the type alias `$E` bound to the element type number `$ty`.
+macro_rules! with_elem {
+  ($ty:expr, $E:ident => $body:expr) => {
+    match $ty {
+      0 => {
+        type $E = u8;
+        $body
+      }
+      1 => {
+        type $E = Pair;
+        $body
+      }
+      _ => {
+        type $E = Nest;
+        $body
+      }
+    }
+  };
+}
+fn ty_name(ty: u8) -> &'static str {
+  with_elem!(ty, E => E::NAME)
+}
+/// The element codes are faithful for these elements (a deserialised foreign element may lie outside the universe).
+fn faithful<E: Elem>(v: &[E]) -> bool {
+  v.iter().all(|e| E::make(e.enc()) == *e)
 }
 fn universe(ty: u8, nk: u8, np: u8) -> Vec<Code> {
   let np = if ty == 0 { 1 } else { np };
@@ -121,6 +183,7 @@ enum Op {
   Replace(u8, u8, u8),
   Update(u8, u8),
   Remove(u8),
+  Clear,
 }
 #[derive(Serialize, Deserialize, Debug, Clone, Copy, PartialEq, Eq, Hash)]
 enum Target {
@@ -136,9 +199,11 @@ enum Via {
   Collect(u8),
   /// serde: the JSON array of the items
   Json,
-  /// OneOrSet::new_set / TryFrom<OrderedSet> (items duplicate-free)
-  NewSet,
-  TryFromSet,
+  /// OneOrSet::new_set / TryFrom<OrderedSet> (items duplicate-free); the operand is built through `OPERANDS[id]`
+  NewSet(u8),
+  TryFromSet(u8),
+  /// OneOrSet: `From<T>` (exactly one item)
+  FromOne,
 }
 #[derive(Serialize, Deserialize, Debug, Clone, Copy, PartialEq, Eq, Hash)]
 enum Fail {
@@ -162,8 +227,8 @@ enum Case {
   /// (b),(d),(e)
   Build { target: Target, ty: u8, via: Via, items: Vec<Code> },
   JsonRaw { target: Target, ty: u8, json: String },
-  /// (d) OneOrSet built from `items` (duplicate-free, non-empty), mapped with function `f`
-  Map { ty: u8, items: Vec<Code>, f: u8, fail: Fail },
+  /// (d) OneOrSet built from `items` (duplicate-free, non-empty) through `MAP_SOURCES[src]`, mapped with function `f`
+  Map { ty: u8, src: u8, items: Vec<Code>, f: u8, fail: Fail },
   /// (e)
   Push { ty: u8, start: Start, ops: Vec<Code> },
 }
@@ -211,6 +276,7 @@ fn model_apply(v: &[Code], op: Op) -> (&'static str, Want) {
       }
       None => ("key-absent", Want::Exact(false, v.to_vec())),
     },
+    Op::Clear => (if v.is_empty() { "empty" } else { "non-empty" }, Want::Exact(true, vec![])),
     Op::Replace(cur, k, p) => match (pos(cur), pos(k)) {
       (None, None) => ("current-absent,update-key-absent", Want::Exact(false, v.to_vec())),
       (Some(i), None) => {
@@ -241,6 +307,7 @@ fn op_name(op: Op) -> &'static str {
     Op::Replace(..) => "replace",
     Op::Update(..) => "update",
     Op::Remove(..) => "remove",
+    Op::Clear => "clear",
   }
 }
 /// Apply to the real set; returns (flag, removed element for `remove`).
@@ -254,7 +321,23 @@ fn real_apply<E: Elem>(set: &mut OrderedSet<E>, op: Op) -> Result<(bool, Option<
       let r = set.remove(&k);
       (r.is_some(), r.map(|e| e.enc()))
     }
+    Op::Clear => {
+      set.clear();
+      (true, None)
+    }
   })
+}
+/// `remove` / `replace` take the key through any `U: KeyComparable<Key = T::Key>`: the same operation with the key
+/// given through an ELEMENT with payload `p` instead of the bare key. `None` for the other ops.
+fn real_apply_by_element<E: Elem>(set: &mut OrderedSet<E>, op: Op, p: u8) -> Option<Result<(bool, Option<Code>), vx::Panicked>> {
+  match op {
+    Op::Replace(cur, k, q) => Some(guard(|| (set.replace(&E::make((cur, p)), E::make((k, q))), None))),
+    Op::Remove(k) => Some(guard(|| {
+      let r = set.remove(&E::make((k, p)));
+      (r.is_some(), r.map(|e| e.enc()))
+    })),
+    _ => None,
+  }
 }
 /// Every read-only observer of the set against the model list; returns (key, what) discrepancies.
 fn observe_set<E: Elem>(set: &OrderedSet<E>, m: &[Code], nk: u8) -> Vec<(String, String)> {
@@ -273,13 +356,26 @@ fn observe_set<E: Elem>(set: &OrderedSet<E>, m: &[Code], nk: u8) -> Vec<(String,
   if set.iter().cloned().collect::<Vec<E>>() != want || set[..] != want[..] || set.clone().into_vec() != want || set.clone().into_iter().collect::<Vec<E>>() != want {
     bad("iter/deref/into_vec/into_iter", format!("{m:?}"));
   }
+  // the `_mut` accessors, used read-only on a copy
+  {
+    let mut c = set.clone();
+    if c.head_mut().map(|e| e.clone()) != want.first().cloned() || c.tail_mut().map(|e| e.clone()) != want.last().cloned() {
+      bad("head_mut/tail_mut", format!("{m:?}"));
+    }
+    if c.iter_mut_unchecked().map(|e| e.clone()).collect::<Vec<E>>() != want {
+      bad("iter_mut_unchecked", format!("{m:?}"));
+    }
+  }
   for k in 0..=nk {
     if set.contains(&k) != has_key(m, k) {
       bad("contains", format!("contains(&{k}) = {} for {m:?}", set.contains(&k)));
     }
-    let probe = E::make((k, 0));
-    if set.contains(&probe) != has_key(m, k) {
-      bad("contains", format!("contains(&element with key {k}) = {} for {m:?}", set.contains(&probe)));
+    // the key given through an element, whatever its payload
+    for p in 0..2 {
+      let probe = E::make((k, p));
+      if set.contains(&probe) != has_key(m, k) {
+        bad("contains", format!("contains(&element {probe:?}) = {} for {m:?}", set.contains(&probe)));
+      }
     }
   }
   if set.clone() != *set {
@@ -290,7 +386,7 @@ fn observe_set<E: Elem>(set: &OrderedSet<E>, m: &[Code], nk: u8) -> Vec<(String,
   }
   match set.to_json() {
     Ok(js) => {
-      if js != vjson::<E>(m) {
+      if !same_json(&js, &vjson::<E>(m)) {
         d.push(("OrderedSet::serialize|not-the-list-of-elements".into(), format!("{js} for {m:?}")));
       }
       match OrderedSet::<E>::from_json(&js) {
@@ -300,7 +396,19 @@ fn observe_set<E: Elem>(set: &OrderedSet<E>, m: &[Code], nk: u8) -> Vec<(String,
     }
     Err(e) => d.push(("OrderedSet::serialize|failed".into(), format!("{e}"))),
   }
+  // the same through the other serde_json front end (a `Value` instead of text)
+  match serde_json::to_value(set).map(|v| (v.clone(), serde_json::from_value::<OrderedSet<E>>(v))) {
+    Ok((_, Ok(back))) if back == *set => {}
+    other => d.push(("OrderedSet::from_value(to_value)|not-identity".into(), format!("{m:?} -> {other:?}"))),
+  }
   d
+}
+/// Two JSON texts denote the same value (independent of white space).
+fn same_json(a: &str, b: &str) -> bool {
+  match (serde_json::from_str::<serde_json::Value>(a), serde_json::from_str::<serde_json::Value>(b)) {
+    (Ok(x), Ok(y)) => x == y,
+    _ => false,
+  }
 }
 
 #[derive(Clone, Debug)]
@@ -325,14 +433,39 @@ impl<E: Elem> Hash for SetState<E> {
     self.set.hash(h) // fingerprint = the REAL set's Vec contents
   }
 }
-/// Construction paths of the start sets. 0: only the empty set; 1..: every duplicate-free list of the universe.
-const ORIGINS: [&str; 4] = ["OrderedSet::new()", "TryFrom<Vec>", "FromIterator of the list followed by the list again", "serde from the JSON array"];
+/// Construction paths of the start sets. 0 and 6: only the empty set; 5: every non-empty duplicate-free list; the
+/// others: every duplicate-free list of the universe.
+const ORIGINS: [&str; 7] = [
+  "OrderedSet::new()",
+  "TryFrom<Vec>",
+  "FromIterator of the list followed by the list again",
+  "serde from the JSON array",
+  "with_capacity(len) + append of every item",
+  "OrderedSet::from(OneOrSet::try_from(Vec))",
+  "Default::default()",
+];
+fn origin_takes(origin: u8, init: &[Code]) -> bool {
+  match origin {
+    0 | 6 => init.is_empty(),
+    5 => !init.is_empty(),
+    _ => true,
+  }
+}
 fn set_from_origin<E: Elem>(origin: u8, init: &[Code]) -> Option<OrderedSet<E>> {
   guard(|| match origin {
     0 => Some(OrderedSet::new()),
     1 => OrderedSet::try_from(mk::<E>(init)).ok(),
     2 => Some(init.iter().chain(init.iter()).map(|c| E::make(*c)).collect::<OrderedSet<E>>()),
-    _ => OrderedSet::<E>::from_json(&vjson::<E>(init)).ok(),
+    3 => OrderedSet::<E>::from_json(&vjson::<E>(init)).ok(),
+    4 => {
+      let mut s = OrderedSet::with_capacity(init.len());
+      for c in init {
+        s.append(E::make(*c));
+      }
+      Some(s)
+    }
+    5 => OneOrSet::try_from(mk::<E>(init)).ok().map(OrderedSet::from),
+    _ => Some(OrderedSet::default()),
   })
   .ok()
   .flatten()
@@ -369,9 +502,9 @@ struct SetModel<E: Elem> {
 }
 impl<E: Elem> SetModel<E> {
   fn new(ty: u8, nk: u8, np: u8, col: Arc<Collector>) -> Self {
-    let mut inits = vec![(0u8, vec![])];
-    for origin in 1..ORIGINS.len() as u8 {
-      inits.extend(dupfree_lists(ty, nk, np).into_iter().map(|l| (origin, l)));
+    let mut inits = Vec::new();
+    for origin in 0..ORIGINS.len() as u8 {
+      inits.extend(dupfree_lists(ty, nk, np).into_iter().filter(|l| origin_takes(origin, l)).map(|l| (origin, l)));
     }
     SetModel { ty, nk, np, inits, col, _e: std::marker::PhantomData }
   }
@@ -406,6 +539,7 @@ impl<E: Elem> Model for SetModel<E> {
     for k in 0..self.nk {
       out.push(Op::Remove(k));
     }
+    out.push(Op::Clear);
   }
   fn next_state(&self, s: &SetState<E>, op: Op) -> Option<SetState<E>> {
     self.col.eval1();
@@ -428,6 +562,29 @@ impl<E: Elem> Model for SetModel<E> {
         return None;
       }
     };
+    // the key given through an element (of every payload) instead of the bare key: same flag, same list, same return
+    if self.ty != 0 {
+      for p in 0..self.np {
+        let mut alt = s.set.clone();
+        let Some(r) = real_apply_by_element(&mut alt, op, p) else { break };
+        match r.and_then(|fr| guard(|| (fr, codes(alt.as_slice())))) {
+          Ok((fr, list)) => {
+            if fr != (flag, removed) || list != got {
+              self.col.violation(
+                &format!("OrderedSet::{name}|key-given-through-an-element-differs-from-bare-key"),
+                &format!("{}: {op:?} on {:?}: by key -> {:?}, {got:?}; by element with payload {p} -> {fr:?}, {list:?}", E::NAME, s.model, (flag, removed)),
+                &case,
+              );
+              return None;
+            }
+          }
+          Err(pn) => {
+            self.col.violation(&format!("OrderedSet::{name}|{}", pn.key()), &format!("{op:?} (key through an element) on {:?}: {}", s.model, pn.msg), &case);
+            return None;
+          }
+        }
+      }
+    }
     let say = |exp: &str| format!("{} (start built by {}): {op:?} on {:?} -> flag {flag}, list {got:?}; {exp}", E::NAME, ORIGINS[s.origin as usize], s.model);
     match want {
       Want::Exact(wflag, wlist) => {
@@ -522,13 +679,22 @@ fn observe_oos<E: Elem>(v: &OneOrSet<E>, m: &[Code], nk: u8, built: bool) -> Vec
     if v.contains(&k) != has_key(m, k) {
       bad("contains", format!("contains(&{k}) = {} for {m:?}", v.contains(&k)));
     }
+    for p in 0..2 {
+      let probe = E::make((k, p));
+      if v.contains(&probe) != has_key(m, k) {
+        bad("contains", format!("contains(&element {probe:?}) = {} for {m:?}", v.contains(&probe)));
+      }
+    }
+  }
+  if v.clone() != *v {
+    bad("clone", format!("{m:?}"));
   }
   match v.to_json() {
     Ok(js) => {
-      if built && m.len() == 1 && js != ejson::<E>(m[0]) {
+      if built && m.len() == 1 && !same_json(&js, &ejson::<E>(m[0])) {
         d.push(("OneOrSet::serialize|singleton-not-bare-value".into(), format!("{js} for {m:?}")));
       }
-      if m.len() > 1 && js != vjson::<E>(m) {
+      if m.len() > 1 && !same_json(&js, &vjson::<E>(m)) {
         d.push(("OneOrSet::serialize|not-the-list-of-elements".into(), format!("{js} for {m:?}")));
       }
       match OneOrSet::<E>::from_json(&js) {
@@ -537,6 +703,10 @@ fn observe_oos<E: Elem>(v: &OneOrSet<E>, m: &[Code], nk: u8, built: bool) -> Vec
       }
     }
     Err(e) => d.push(("OneOrSet::serialize|failed".into(), format!("{e}"))),
+  }
+  match serde_json::to_value(v).map(|j| serde_json::from_value::<OneOrSet<E>>(j)) {
+    Ok(Ok(back)) if back == *v => {}
+    other => d.push(("OneOrSet::from_value(to_value)|not-identity".into(), format!("{m:?} -> {other:?}"))),
   }
   d
 }
@@ -561,18 +731,25 @@ fn observe_oom<E: Elem>(v: &OneOrMany<E>, m: &[Code], built: bool) -> Vec<(Strin
   {
     bad("iter/deref/into_vec/into_iter", format!("{m:?}"));
   }
-  for c in [(0, 0), (1, 0), (2, 0), (0, 1), (9, 0)] {
+  if AsRef::<[E]>::as_ref(v) != &want[..] || v.clone() != *v {
+    bad("as_ref/clone", format!("{m:?}"));
+  }
+  for c in [(0, 0), (1, 0), (2, 0), (0, 1), (1, 1), (0, 2), (9, 0)] {
     let probe = E::make(c);
     if v.contains(&probe) != want.contains(&probe) {
       bad("contains", format!("contains({probe:?}) for {m:?}"));
     }
   }
+  match serde_json::to_value(v).map(|j| serde_json::from_value::<OneOrMany<E>>(j)) {
+    Ok(Ok(back)) if back == *v => {}
+    other => d.push(("OneOrMany::from_value(to_value)|not-identity".into(), format!("{m:?} -> {other:?}"))),
+  }
   match v.to_json() {
     Ok(js) => {
-      if built && m.len() == 1 && js != ejson::<E>(m[0]) {
+      if built && m.len() == 1 && !same_json(&js, &ejson::<E>(m[0])) {
         d.push(("OneOrMany::serialize|singleton-not-bare-value".into(), format!("{js} for {m:?}")));
       }
-      if m.len() != 1 && js != vjson::<E>(m) {
+      if m.len() != 1 && !same_json(&js, &vjson::<E>(m)) {
         d.push(("OneOrMany::serialize|not-the-list-of-elements".into(), format!("{js} for {m:?}")));
       }
       match OneOrMany::<E>::from_json(&js) {
@@ -606,17 +783,47 @@ impl<E: Elem> Hash for OosState<E> {
     self.v.hash(h) // the REAL value (variant + contents)
   }
 }
-/// Construction paths of the start values. 0: singletons only; 1..: every non-empty duplicate-free list.
-const OOS_ORIGINS: [&str; 4] = ["new_one", "TryFrom<Vec>", "new_set(FromIterator)", "serde from the JSON array"];
+/// Construction paths of the start values. 0 and 4: singletons only; the others: every non-empty duplicate-free list.
+const OOS_ORIGINS: [&str; 6] =
+  ["new_one", "TryFrom<Vec>", "new_set(FromIterator)", "serde from the JSON array", "From<T>", "TryFrom<OrderedSet> of a set with one more element appended, then removed"];
+/// A key outside every universe.
+const EXTRA: Code = (200, 0);
 fn oos_from_origin<E: Elem>(origin: u8, init: &[Code]) -> Option<OneOrSet<E>> {
   guard(|| match origin {
     0 => (init.len() == 1).then(|| OneOrSet::new_one(E::make(init[0]))),
     1 => OneOrSet::try_from(mk::<E>(init)).ok(),
     2 => OneOrSet::new_set(mk::<E>(init).into_iter().collect()).ok(),
-    _ => OneOrSet::<E>::from_json(&vjson::<E>(init)).ok(),
+    3 => OneOrSet::<E>::from_json(&vjson::<E>(init)).ok(),
+    4 => (init.len() == 1).then(|| OneOrSet::from(E::make(init[0]))),
+    _ => operand_set::<E>(3, init).and_then(|s| OneOrSet::try_from(s).ok()),
   })
   .ok()
   .flatten()
+}
+/// The ways the `OrderedSet` operand of `new_set` / `TryFrom<OrderedSet>` is built from a duplicate-free list.
+const OPERANDS: [&str; 5] = ["TryFrom<Vec>", "FromIterator", "new() + prepend in reverse order", "TryFrom<Vec> of the list and one more element, which is then removed", "serde from the JSON array"];
+fn operand_set<E: Elem>(id: u8, items: &[Code]) -> Option<OrderedSet<E>> {
+  let set = match id {
+    0 => OrderedSet::try_from(mk::<E>(items)).ok()?,
+    1 => mk::<E>(items).into_iter().collect(),
+    2 => {
+      let mut s = OrderedSet::new();
+      for c in items.iter().rev() {
+        s.prepend(E::make(*c));
+      }
+      s
+    }
+    3 => {
+      let mut longer = items.to_vec();
+      longer.push(EXTRA);
+      let mut s = OrderedSet::try_from(mk::<E>(&longer)).ok()?;
+      s.remove(&EXTRA.0)?;
+      s
+    }
+    _ => OrderedSet::<E>::from_json(&vjson::<E>(items)).ok()?,
+  };
+  // an operand that does not hold the list is a defect of OrderedSet, judged in parts (a) / (b)
+  (codes(set.as_slice()) == items).then_some(set)
 }
 struct OosModel<E: Elem> {
   ty: u8,
@@ -629,9 +836,9 @@ struct OosModel<E: Elem> {
 impl<E: Elem> OosModel<E> {
   fn new(ty: u8, nk: u8, np: u8, col: Arc<Collector>) -> Self {
     let lists: Vec<Vec<Code>> = dupfree_lists(ty, nk, np).into_iter().filter(|l| !l.is_empty()).collect();
-    let mut inits: Vec<(u8, Vec<Code>)> = lists.iter().filter(|l| l.len() == 1).map(|l| (0u8, l.clone())).collect();
-    for origin in 1..OOS_ORIGINS.len() as u8 {
-      inits.extend(lists.iter().map(|l| (origin, l.clone())));
+    let mut inits: Vec<(u8, Vec<Code>)> = Vec::new();
+    for origin in 0..OOS_ORIGINS.len() as u8 {
+      inits.extend(lists.iter().filter(|l| l.len() == 1 || !matches!(origin, 0 | 4)).map(|l| (origin, l.clone())));
     }
     OosModel { ty, nk, np, inits, col, _e: std::marker::PhantomData }
   }
@@ -727,18 +934,54 @@ impl<E: Elem> Model for OosModel<E> {
 }
 
 // ------------------------------------------------------------------ size hints for FromIterator
-/// (name, honest for every item count?)
-const HINTS: [(&str, bool); 9] = [
-  ("exact (delegates to vec::IntoIter)", true),
-  ("(0, None)", true),
-  ("std only: (0..usize::MAX).take_while(|i| i < n).map(|i| items[i]), hint (0, Some(usize::MAX))", true),
-  ("(0, Some(0)) lying", false),
-  ("(0, Some(1)) lying", false),
-  ("(1, Some(1)) lying", false),
-  ("(n+3, Some(n+3)) lying", false),
-  ("(1, None) lying", false),
-  ("(0, Some(usize::MAX))", true),
+/// Size-hint behaviours of the iterator handed to `FromIterator`. `r` = items still to come, `n` = items in total.
+/// A behaviour is HONEST for an item count n when its hint bounds the remaining count at every point of the
+/// iteration; results are judged in full only then. Under a hint that lies the standard library promises memory
+/// safety only ("a buggy iterator may yield less than the lower bound or more than the upper bound"), so contents and
+/// panics are recorded, and only the invariants of whatever value comes back are judged.
+const HINTS: [&str; 16] = [
+  "exact (delegates to vec::IntoIter)",
+  "(0, None)",
+  "std only: (0..usize::MAX).take_while(|i| i < n).map(|i| items[i]), hint (0, Some(usize::MAX))",
+  "(0, Some(0)) honest for n=0",
+  "(0, Some(1)) honest for n<=1",
+  "(min(r,1), Some(1)) honest for n<=1",
+  "(n+3, Some(n+3)) lying",
+  "(1, None) lying (at the latest when exhausted)",
+  "(0, Some(usize::MAX))",
+  "(min(r,1), Some(r+1))",
+  "(r, None)",
+  "(r-1, Some(r))",
+  "(min(r,1), None)",
+  "(0, Some(r))",
+  "std only: once(first).chain(rest followed by two None, filter_map(|x| x)), hint (1, Some(n+2))",
+  "(min(r,2), Some(max(r,3)))",
 ];
+fn hint_of(id: u8, r: usize, n: usize) -> (usize, Option<usize>) {
+  match id {
+    1 => (0, None),
+    3 => (0, Some(0)),
+    4 => (0, Some(1)),
+    5 => (r.min(1), Some(1)),
+    6 => (n + 3, Some(n + 3)),
+    7 => (1, None),
+    8 => (0, Some(usize::MAX)),
+    9 => (r.min(1), Some(r + 1)),
+    10 => (r, None),
+    11 => (r.saturating_sub(1), Some(r)),
+    12 => (r.min(1), None),
+    13 => (0, Some(r)),
+    15 => (r.min(2), Some(r.max(3))),
+    _ => (r, Some(r)), // 0, 2, 14: the standard library's own hints, exact or looser
+  }
+}
+fn hint_honest(id: u8, n: usize) -> bool {
+  matches!(id, 0 | 2 | 14)
+    || (0..=n).all(|r| {
+      let (lo, hi) = hint_of(id, r, n);
+      lo <= r && hi.map_or(true, |h| r <= h)
+    })
+}
 struct Hinted<E> {
   it: std::vec::IntoIter<E>,
   id: u8,
@@ -752,22 +995,26 @@ impl<E> Iterator for Hinted<E> {
   fn size_hint(&self) -> (usize, Option<usize>) {
     match self.id {
       0 => self.it.size_hint(),
-      1 => (0, None),
-      3 => (0, Some(0)),
-      4 => (0, Some(1)),
-      5 => (1, Some(1)),
-      6 => (self.n + 3, Some(self.n + 3)),
-      7 => (1, None),
-      _ => (0, Some(usize::MAX)),
+      id => hint_of(id, self.it.len(), self.n),
     }
   }
 }
 fn hinted<E: Elem>(items: &[Code], id: u8) -> Box<dyn Iterator<Item = E>> {
+  // 2 and 14: no harness iterator involved, adapters of the standard library only
   if id == 2 {
-    // no harness iterator involved: adapters of the standard library whose (honest) upper bound is usize::MAX
     let v = mk::<E>(items);
     let n = v.len();
     return Box::new((0usize..usize::MAX).take_while(move |i| *i < n).map(move |i| v[i].clone()));
+  }
+  if id == 14 {
+    let mut v = mk::<E>(items).into_iter();
+    return match v.next() {
+      None => Box::new(std::iter::empty()),
+      Some(first) => {
+        let rest: Vec<Option<E>> = v.map(Some).chain([None, None]).collect();
+        Box::new(std::iter::once(first).chain(rest.into_iter().filter_map(|x| x)))
+      }
+    };
   }
   Box::new(Hinted { it: mk::<E>(items).into_iter(), id, n: items.len() })
 }
@@ -782,21 +1029,24 @@ fn report(ctx: &Ctx, d: Vec<(String, String)>, pre: &str, case: &Case) -> bool {
 
 fn build_set<E: Elem>(ctx: &Ctx, via: Via, items: &[Code], case: &Case) {
   let dup = !unique(items);
-  let pre = format!("OrderedSet<{}> from {items:?} via {via:?}", E::NAME);
+  let pre = format!("OrderedSet<{}> from {items:?} via {}", E::NAME, via_name(via));
   let (entry, r): (String, Result<Result<OrderedSet<E>, String>, vx::Panicked>) = match via {
     Via::FromVec => ("OrderedSet::try_from<Vec>".into(), guard(|| OrderedSet::try_from(mk::<E>(items)).map_err(|e| e.to_string()))),
-    Via::Collect(h) => (
-      format!("OrderedSet::from_iter|{}", if HINTS[h as usize].1 { "honest-size-hint" } else { "lying-size-hint" }),
-      guard(|| Ok(hinted::<E>(items, h).collect::<OrderedSet<E>>())),
-    ),
+    Via::Collect(h) => ("OrderedSet::from_iter|honest-size-hint".into(), guard(|| Ok(hinted::<E>(items, h).collect::<OrderedSet<E>>()))),
     Via::Json => ("OrderedSet::deserialize".into(), guard(|| OrderedSet::<E>::from_json(&vjson::<E>(items)).map_err(|e| e.to_string()))),
     _ => return,
   };
   let collecting = matches!(via, Via::Collect(_));
+  // a hint that lies for this item count: nothing is promised about contents or panics (see HINTS)
+  let lying = matches!(via, Via::Collect(h) if !hint_honest(h, items.len()));
   let label = match r {
     Err(p) => {
-      ctx.violation(&format!("{entry}|{}", p.key()), &format!("{pre}: {} @ {}", p.msg, p.loc), case);
-      "PANIC"
+      if lying {
+        "lying-hint:panic(not judged)"
+      } else {
+        ctx.violation(&format!("{entry}|{}", p.key()), &format!("{pre}: {} @ {}", p.msg, p.loc), case);
+        "PANIC"
+      }
     }
     Ok(Err(e)) => {
       if !dup {
@@ -804,6 +1054,25 @@ fn build_set<E: Elem>(ctx: &Ctx, via: Via, items: &[Code], case: &Case) {
       }
       "rejected"
     }
+    Ok(Ok(set)) if lying => match guard(|| {
+      let own = codes(set.as_slice());
+      let d = if faithful(set.as_slice()) { observe_set(&set, &own, 3) } else { vec![] };
+      (own, d)
+    }) {
+      // whatever came back is an OrderedSet: no duplicate keys, observers consistent with its own contents
+      Ok((own, d)) => {
+        report(ctx, d, &pre, case);
+        if own == first_occurrences(items) {
+          "lying-hint:first-occurrences"
+        } else {
+          "lying-hint:other-contents(not judged)"
+        }
+      }
+      Err(p) => {
+        ctx.violation(&format!("OrderedSet::observers|{}", p.key()), &p.msg, case);
+        "PANIC"
+      }
+    },
     Ok(Ok(set)) => {
       if dup && !collecting {
         ctx.violation(&format!("{entry}|accepted|duplicate-keys"), &format!("{pre}: contents {:?}", guard(|| codes(set.as_slice())).ok()), case);
@@ -811,11 +1080,12 @@ fn build_set<E: Elem>(ctx: &Ctx, via: Via, items: &[Code], case: &Case) {
       } else {
         let want = if collecting { first_occurrences(items) } else { items.to_vec() };
         match guard(|| codes(set.as_slice())) {
-          Ok(got) if got == want => {
-            if let Ok(d) = guard(|| observe_set(&set, &want, 3)) {
+          Ok(got) if got == want => match guard(|| observe_set(&set, &want, 3)) {
+            Ok(d) => {
               report(ctx, d, &pre, case);
             }
-          }
+            Err(p) => ctx.violation(&format!("OrderedSet::observers|{}", p.key()), &p.msg, case),
+          },
           Ok(got) => ctx.violation(
             &format!("{entry}|{}", if collecting { "not-first-occurrences-in-order" } else { "contents-differ-from-input" }),
             &format!("{pre}: contents {got:?}, expected {want:?}"),
@@ -835,24 +1105,29 @@ fn build_set<E: Elem>(ctx: &Ctx, via: Via, items: &[Code], case: &Case) {
 }
 fn via_name(via: Via) -> String {
   match via {
-    Via::Collect(h) => format!("collect[{}]", HINTS[h as usize].0),
+    Via::Collect(h) => format!("collect[{}]", HINTS[h as usize]),
+    Via::NewSet(o) => format!("new_set[operand: {}]", OPERANDS[o as usize]),
+    Via::TryFromSet(o) => format!("try_from<OrderedSet>[operand: {}]", OPERANDS[o as usize]),
     v => format!("{v:?}"),
   }
 }
 
 fn build_oos<E: Elem>(ctx: &Ctx, via: Via, items: &[Code], case: &Case) {
   let dup = !unique(items);
-  let pre = format!("OneOrSet<{}> from {items:?} via {via:?}", E::NAME);
-  let operand = |items: &[Code]| OrderedSet::try_from(mk::<E>(items)).ok();
+  let pre = format!("OneOrSet<{}> from {items:?} via {}", E::NAME, via_name(via));
   let (entry, r): (&str, Result<Result<OneOrSet<E>, String>, vx::Panicked>) = match via {
     Via::FromVec => ("OneOrSet::try_from<Vec>", guard(|| OneOrSet::try_from(mk::<E>(items)).map_err(|e| e.to_string()))),
-    Via::NewSet | Via::TryFromSet => {
-      let Ok(Some(set)) = guard(|| operand(items)) else {
-        // a duplicate-free list refused by OrderedSet::try_from is judged in part (b)
+    Via::FromOne => {
+      let [one] = items else { return };
+      ("OneOrSet::from<T>", guard(|| Ok(OneOrSet::from(E::make(*one)))))
+    }
+    Via::NewSet(o) | Via::TryFromSet(o) => {
+      let Ok(Some(set)) = guard(|| operand_set::<E>(o, items)) else {
+        // an operand that cannot be built from a duplicate-free list is judged in parts (a) / (b)
         ctx.outcome("oneorset-build:operand-not-constructible");
         return;
       };
-      if via == Via::NewSet {
+      if matches!(via, Via::NewSet(_)) {
         ("OneOrSet::new_set", guard(|| OneOrSet::new_set(set).map_err(|e| e.to_string())))
       } else {
         ("OneOrSet::try_from<OrderedSet>", guard(|| OneOrSet::try_from(set).map_err(|e| e.to_string())))
@@ -910,20 +1185,23 @@ fn build_oos<E: Elem>(ctx: &Ctx, via: Via, items: &[Code], case: &Case) {
 }
 
 fn build_oom<E: Elem>(ctx: &Ctx, via: Via, items: &[Code], case: &Case) {
-  let pre = format!("OneOrMany<{}> from {items:?} via {via:?}", E::NAME);
+  let pre = format!("OneOrMany<{}> from {items:?} via {}", E::NAME, via_name(via));
   let (entry, r): (String, Result<Result<OneOrMany<E>, String>, vx::Panicked>) = match via {
     Via::FromVec => ("OneOrMany::from<Vec>".into(), guard(|| Ok(OneOrMany::from(mk::<E>(items))))),
-    Via::Collect(h) => (
-      format!("OneOrMany::from_iter|{}", if HINTS[h as usize].1 { "honest-size-hint" } else { "lying-size-hint" }),
-      guard(|| Ok(hinted::<E>(items, h).collect::<OneOrMany<E>>())),
-    ),
+    Via::Collect(h) => ("OneOrMany::from_iter|honest-size-hint".into(), guard(|| Ok(hinted::<E>(items, h).collect::<OneOrMany<E>>()))),
     Via::Json => ("OneOrMany::deserialize".into(), guard(|| OneOrMany::<E>::from_json(&vjson::<E>(items)).map_err(|e| e.to_string()))),
     _ => return,
   };
+  // a hint that lies for this item count: nothing is promised about contents, shape or panics (see HINTS)
+  let lying = matches!(via, Via::Collect(h) if !hint_honest(h, items.len()));
   let label = match r {
     Err(p) => {
-      ctx.violation(&format!("{entry}|{}", p.key()), &format!("{pre}: {} @ {}", p.msg, p.loc), case);
-      "PANIC"
+      if lying {
+        "lying-hint:panic(not judged)"
+      } else {
+        ctx.violation(&format!("{entry}|{}", p.key()), &format!("{pre}: {} @ {}", p.msg, p.loc), case);
+        "PANIC"
+      }
     }
     Ok(Err(e)) => {
       // `[x]` is the JSON of no constructor-built value: left open; every other array is the own JSON of Many(items)
@@ -932,6 +1210,25 @@ fn build_oom<E: Elem>(ctx: &Ctx, via: Via, items: &[Code], case: &Case) {
       }
       "rejected"
     }
+    Ok(Ok(v)) if lying => match guard(|| {
+      let own = codes(v.as_slice());
+      let d = if faithful(v.as_slice()) { observe_oom(&v, &own, false) } else { vec![] };
+      (own, d)
+    }) {
+      // whatever came back: observers consistent with its own contents, own JSON round trip
+      Ok((own, d)) => {
+        report(ctx, d, &pre, case);
+        if own == items {
+          "lying-hint:all-items"
+        } else {
+          "lying-hint:other-contents(not judged)"
+        }
+      }
+      Err(p) => {
+        ctx.violation(&format!("OneOrMany::observers|{}", p.key()), &p.msg, case);
+        "PANIC"
+      }
+    },
     Ok(Ok(v)) => {
       match guard(|| codes(v.as_slice())) {
         Ok(got) if got == items => match guard(|| observe_oom(&v, items, via != Via::Json)) {
@@ -957,7 +1254,12 @@ fn build_oom<E: Elem>(ctx: &Ctx, via: Via, items: &[Code], case: &Case) {
 /// malformed / foreign values (not judged beyond "no panic, accepted => invariants").
 fn json_raw<E: Elem>(ctx: &Ctx, target: Target, js: &str, case: &Case) {
   // is it exactly the JSON of one element?
-  let bare: Option<Code> = serde_json::from_str::<E>(js).ok().filter(|e| serde_json::to_string(e).ok().as_deref() == Some(js)).map(|e| e.enc());
+  // (guarded: parsing a `Nest` runs the library's `OneOrMany` deserialiser)
+  let bare: Option<Code> = guard(|| {
+    serde_json::from_str::<E>(js).ok().filter(|e| serde_json::to_string(e).ok().as_deref() == Some(js) && faithful(std::slice::from_ref(e))).map(|e| e.enc())
+  })
+  .ok()
+  .flatten();
   let pre = format!("{target:?}<{}> from JSON {js}", E::NAME);
   let tname = match target {
     Target::Set => "OrderedSet",
@@ -969,21 +1271,22 @@ fn json_raw<E: Elem>(ctx: &Ctx, target: Target, js: &str, case: &Case) {
     Target::Set => guard(|| {
       OrderedSet::<E>::from_json(js).map_err(|e| e.to_string()).map(|v| {
         let c = codes(v.as_slice());
-        let d = observe_set(&v, &c, 3);
+        // elements outside the universe (the codes do not describe them): accepted, contents not observed
+        let d = if faithful(v.as_slice()) { observe_set(&v, &c, 3) } else { vec![] };
         (c, d)
       })
     }),
     Target::OneOrSet => guard(|| {
       OneOrSet::<E>::from_json(js).map_err(|e| e.to_string()).map(|v| {
         let c = codes(v.as_slice());
-        let d = observe_oos(&v, &c, 3, false);
+        let d = if faithful(v.as_slice()) { observe_oos(&v, &c, 3, false) } else { vec![] };
         (c, d)
       })
     }),
     Target::OneOrMany => guard(|| {
       OneOrMany::<E>::from_json(js).map_err(|e| e.to_string()).map(|v| {
         let c = codes(v.as_slice());
-        let d = observe_oom(&v, &c, false);
+        let d = if faithful(v.as_slice()) { observe_oom(&v, &c, false) } else { vec![] };
         (c, d)
       })
     }),
@@ -1003,9 +1306,8 @@ fn json_raw<E: Elem>(ctx: &Ctx, target: Target, js: &str, case: &Case) {
     Ok(Ok((contents, d))) => {
       report(ctx, d, &pre, case);
       if let Some(x) = bare {
-        if target == Target::Set {
-          ctx.violation("OrderedSet::deserialize|accepted|bare-element", &pre, case);
-        } else if contents != vec![x] {
+        // whether an OrderedSet accepts a bare element (as a set of one) is not stated: recorded, not judged
+        if target != Target::Set && contents != vec![x] {
           ctx.violation(&format!("{tname}::deserialize|bare-element-not-a-singleton"), &format!("{pre}: contents {contents:?}"), case);
         }
         "accepted-bare-element"
@@ -1028,7 +1330,7 @@ fn fun(f: u8, c: Code) -> Code {
     _ => (7, 0),
   }
 }
-fn judge_mapped<S: Elem>(ctx: &Ctx, entry: &str, r: &OneOrSet<S>, mapped: &[Code], pre: &str, case: &Case) {
+fn judge_mapped<S: Elem>(ctx: &Ctx, entry: &str, r: &OneOrSet<S>, mapped: &[Code], built: bool, pre: &str, case: &Case) {
   let got = match guard(|| codes(r.as_slice())) {
     Ok(g) => g,
     Err(p) => return ctx.violation(&format!("OneOrSet::as_slice|{}", p.key()), &p.msg, case),
@@ -1044,7 +1346,7 @@ fn judge_mapped<S: Elem>(ctx: &Ctx, entry: &str, r: &OneOrSet<S>, mapped: &[Code
   } else if !subseq || !covers {
     ctx.violation(&format!("{entry}|result-not-the-mapped-elements"), &format!("{pre}: {got:?} for mapped {mapped:?}"), case);
   } else {
-    match guard(|| observe_oos(r, &got, 7, true)) {
+    match guard(|| observe_oos(r, &got, 7, built)) {
       Ok(d) => {
         report(ctx, d, pre, case);
       }
@@ -1052,20 +1354,40 @@ fn judge_mapped<S: Elem>(ctx: &Ctx, entry: &str, r: &OneOrSet<S>, mapped: &[Code
     }
   }
 }
-fn map_case<E: Elem, S: Elem>(ctx: &Ctx, items: &[Code], f: u8, fail: Fail, case: &Case) {
-  let Ok(Ok(src)) = guard(|| OneOrSet::<E>::try_from(mk::<E>(items))) else {
+/// How the mapped value is built from the (non-empty, duplicate-free) list.
+const MAP_SOURCES: [&str; 3] = ["TryFrom<Vec>", "serde from the JSON array", "new_one(first) + append of the others"];
+fn map_case<E: Elem, S: Elem>(ctx: &Ctx, src_id: u8, items: &[Code], f: u8, fail: Fail, case: &Case) {
+  let built_src = guard(|| {
+    let v = match src_id {
+      0 => OneOrSet::<E>::try_from(mk::<E>(items)).ok()?,
+      1 => OneOrSet::<E>::from_json(&vjson::<E>(items)).ok()?,
+      _ => {
+        let mut v = OneOrSet::new_one(E::make(items[0]));
+        for c in &items[1..] {
+          v.append(E::make(*c));
+        }
+        v
+      }
+    };
+    (codes(v.as_slice()) == items).then_some(v)
+  });
+  let Ok(Some(src)) = built_src else {
+    // a source that cannot be built or does not hold the list is judged by the constructor parts
     ctx.outcome("map:operand-not-constructible");
     return;
   };
+  // a set of one deserialised from the array `[x]` is not constructor-built: whether its image is a bare value or a
+  // set of one is left open (the singleton clause speaks of values built through the constructors)
+  let built = !(src_id == 1 && items.len() == 1);
   let mapped: Vec<Code> = items.iter().map(|c| S::make(fun(f, *c)).enc()).collect();
   let collapse = if unique(&mapped) { "keys-stay-distinct" } else { "keys-collapse" };
-  let pre = format!("OneOrSet<{}> {items:?} mapped with {} fail {fail:?}", E::NAME, FUNS[f as usize]);
+  let pre = format!("OneOrSet<{}> {items:?} (built by {}) mapped with {} fail {fail:?}", E::NAME, MAP_SOURCES[src_id as usize], FUNS[f as usize]);
   if fail == Fail::Never {
     match guard(|| src.clone().map(|e| S::make(fun(f, e.enc())))) {
-      Ok(r) => judge_mapped(ctx, "OneOrSet::map", &r, &mapped, &pre, case),
+      Ok(r) => judge_mapped(ctx, "OneOrSet::map", &r, &mapped, built, &pre, case),
       Err(p) => ctx.violation(&format!("OneOrSet::map|{}", p.key()), &format!("{pre}: {} @ {}", p.msg, p.loc), case),
     }
-    ctx.outcome(&format!("map:{collapse}:len{}", items.len().min(2)));
+    ctx.outcome(&format!("map:{collapse}:len{}:{}", items.len().min(2), if built { "constructor-built" } else { "deserialised-set-of-one" }));
   }
   let fails_on = |i: usize, c: Code| match fail {
     Fail::Never => false,
@@ -1101,7 +1423,7 @@ fn map_case<E: Elem, S: Elem>(ctx: &Ctx, items: &[Code], f: u8, fail: Fail, case
         // whether every element must be visited is not stated: recorded, not judged
         "ok-although-f-would-fail-on-an-element"
       } else {
-        judge_mapped(ctx, "OneOrSet::try_map", &r, &mapped, &pre, case);
+        judge_mapped(ctx, "OneOrSet::try_map", &r, &mapped, built, &pre, case);
         "ok"
       }
     }
@@ -1180,56 +1502,36 @@ fn eval(ctx: &Ctx, case: &Case) {
   match case {
     Case::SetHist { ty, nk, np, origin, init, ops } => {
       let col = Collector::new();
-      if *ty == 0 {
-        replay(&SetModel::<u8>::single(0, *nk, *np, *origin, init.clone(), col.clone()), ops.iter().copied());
-      } else {
-        replay(&SetModel::<Pair>::single(1, *nk, *np, *origin, init.clone(), col.clone()), ops.iter().copied());
-      }
+      with_elem!(*ty, E => replay(&SetModel::<E>::single(*ty, *nk, *np, *origin, init.clone(), col.clone()), ops.iter().copied()));
       col.drain_into(ctx, "set-history-replay");
     }
     Case::OosHist { ty, nk, np, origin, init, ops } => {
       let col = Collector::new();
-      if *ty == 0 {
-        replay(&OosModel::<u8>::single(0, *nk, *np, *origin, init.clone(), col.clone()), ops.iter().copied());
-      } else {
-        replay(&OosModel::<Pair>::single(1, *nk, *np, *origin, init.clone(), col.clone()), ops.iter().copied());
-      }
+      with_elem!(*ty, E => replay(&OosModel::<E>::single(*ty, *nk, *np, *origin, init.clone(), col.clone()), ops.iter().copied()));
       col.drain_into(ctx, "oneorset-history-replay");
     }
     Case::Build { target, ty, via, items } => {
-      match (target, ty) {
-        (Target::Set, 0) => build_set::<u8>(ctx, *via, items, case),
-        (Target::Set, _) => build_set::<Pair>(ctx, *via, items, case),
-        (Target::OneOrSet, 0) => build_oos::<u8>(ctx, *via, items, case),
-        (Target::OneOrSet, _) => build_oos::<Pair>(ctx, *via, items, case),
-        (Target::OneOrMany, 0) => build_oom::<u8>(ctx, *via, items, case),
-        (Target::OneOrMany, _) => build_oom::<Pair>(ctx, *via, items, case),
+      match target {
+        Target::Set => with_elem!(*ty, E => build_set::<E>(ctx, *via, items, case)),
+        Target::OneOrSet => with_elem!(*ty, E => build_oos::<E>(ctx, *via, items, case)),
+        Target::OneOrMany => with_elem!(*ty, E => build_oom::<E>(ctx, *via, items, case)),
       }
       ctx.distinct(&(1u8, target, ty, via, items));
     }
     Case::JsonRaw { target, ty, json } => {
-      if *ty == 0 {
-        json_raw::<u8>(ctx, *target, json, case)
-      } else {
-        json_raw::<Pair>(ctx, *target, json, case)
-      }
+      with_elem!(*ty, E => json_raw::<E>(ctx, *target, json, case));
       ctx.distinct(&(2u8, target, ty, json));
     }
-    Case::Map { ty, items, f, fail } => {
-      match (ty, *f <= 2) {
-        (0, true) => map_case::<u8, Pair>(ctx, items, *f, *fail, case),
-        (0, false) => map_case::<u8, u8>(ctx, items, *f, *fail, case),
-        (_, true) => map_case::<Pair, Pair>(ctx, items, *f, *fail, case),
-        (_, false) => map_case::<Pair, u8>(ctx, items, *f, *fail, case),
+    Case::Map { ty, src, items, f, fail } => {
+      if *f <= 2 {
+        with_elem!(*ty, E => map_case::<E, Pair>(ctx, *src, items, *f, *fail, case))
+      } else {
+        with_elem!(*ty, E => map_case::<E, u8>(ctx, *src, items, *f, *fail, case))
       }
-      ctx.distinct(&(3u8, ty, items, f, fail));
+      ctx.distinct(&(3u8, ty, src, items, f, fail));
     }
     Case::Push { ty, start, ops } => {
-      if *ty == 0 {
-        push_case::<u8>(ctx, start, ops, case)
-      } else {
-        push_case::<Pair>(ctx, start, ops, case)
-      }
+      with_elem!(*ty, E => push_case::<E>(ctx, start, ops, case));
       ctx.distinct(&(4u8, ty, start, ops));
     }
   }
@@ -1248,26 +1550,26 @@ fn run_cases(ctx: &Ctx, part: &str, cases: &[Case]) {
 }
 
 fn generate(ctx: &Ctx) {
-  ctx.rule("(a),(c) stateright BFS to closure: every op with every argument at every reachable REAL set / OneOrSet; (b),(d),(e) complete enumeration of all vectors / JSON arrays <= n over the element universe x construction path, all map functions x failure points, all push sequences <= n. distinct_nontrivial = unique states of (a),(c) + distinct (target, element type, path, items) tuples of the enumerations");
-  ctx.assume("serde_json is trusted to print/parse the JSON of the element types; element types are u8 (library KeyComparable impl) and a harness struct whose key is a projection");
+  ctx.rule("(a),(c) stateright BFS to closure: every op with every argument at every reachable REAL set / OneOrSet of every construction path; (b),(d),(e) complete enumeration of all vectors / JSON arrays <= n over the element universe x construction path (x every way of building the operand), all map functions x failure points x source construction paths, all push sequences <= n. distinct_nontrivial = unique states of (a),(c) + distinct (target, element type, path, items) tuples of the enumerations");
+  ctx.assume("serde_json is trusted to print/parse the JSON of the element types; element types are u8 (library KeyComparable impl), a harness struct whose key is a projection, and a harness struct whose payload is a OneOrMany<u8> written through the public enum variants");
+  ctx.assume("an iterator whose size_hint lies about the number of items it yields is outside the contract of FromIterator: contents, shape and panics of such a collect are recorded, only the invariants of the returned value are judged");
 
   // ---- (a) OrderedSet histories to closure
-  // value-is-key type over {0,1,2,3} (thorough {0..4}); projection type over keys {0,1,2,3} x payloads {a,b}
-  // (quick additionally {0..4} and 3 keys x 3 payloads, they are cheap; thorough up to 6 keys / 5 keys x 2 payloads / 4 keys x 3 payloads)
-  let mut universes: Vec<(u8, u8, u8)> = vec![(0, 4, 1), (1, 4, 2), (0, 5, 1), (1, 3, 3)];
+  // (type, keys, payloads): value-is-key type over 4 and 5 keys (thorough 6 and 7); projection type over 4 keys x 2 payloads and
+  // 3 keys x 3 payloads (thorough 5 x 2, 4 x 3); nested type over 3 keys x 3 shapes (thorough 4 x 3)
+  let mut universes: Vec<(u8, u8, u8)> = vec![(0, 4, 1), (1, 4, 2), (0, 5, 1), (1, 3, 3), (2, 3, 3)];
   if ctx.thorough() {
-    universes.extend([(0, 6, 1), (1, 5, 2), (1, 4, 3)]);
+    universes.extend([(0, 6, 1), (1, 5, 2), (1, 4, 3), (0, 7, 1), (2, 4, 3)]);
   }
   for &(ty, nk, np) in &universes {
-    let name = format!("OrderedSet<{}> histories keys={nk} payloads={np}", if ty == 0 { "u8" } else { "Pair" });
-    let st = if ty == 0 {
-      vx::sr::run(ctx, &name, None, |col| SetModel::<u8>::new(ty, nk, np, col))
-    } else {
-      vx::sr::run(ctx, &name, None, |col| SetModel::<Pair>::new(ty, nk, np, col))
-    };
-    // every duplicate-free list of the universe must have been reached on every construction path
-    let lists = dupfree_lists(ty, nk, np).len() as u64;
-    ctx.require(st.unique == lists * ORIGINS.len() as u64, &format!("{name}: reached {} states, expected {lists} duplicate-free lists x {} construction paths", st.unique, ORIGINS.len()));
+    let name = format!("OrderedSet<{}> histories keys={nk} payloads={np}", ty_name(ty));
+    let st = with_elem!(ty, E => vx::sr::run(ctx, &name, None, |col| SetModel::<E>::new(ty, nk, np, col)));
+    // every duplicate-free list of the universe must have been reached on every construction path that takes it
+    let all = dupfree_lists(ty, nk, np);
+    let lists = all.len() as u64;
+    let expected: u64 = (0..ORIGINS.len() as u8).map(|o| if all.iter().any(|l| origin_takes(o, l)) { lists } else { 0 }).sum();
+    // (a violating successor is not expanded, so the count is only demanded of a violation-free run)
+    ctx.require(st.unique == expected || !ctx.violation_keys().is_empty(), &format!("{name}: reached {} states, expected {lists} duplicate-free lists x {} construction paths = {expected}", st.unique, ORIGINS.len()));
     ctx.bound(&format!("{name}: duplicate-free lists"), lists);
     for i in 0..st.unique {
       ctx.distinct(&(10u8, ty, nk, np, i));
@@ -1275,24 +1577,23 @@ fn generate(ctx: &Ctx) {
   }
   // ---- (c) OneOrSet append histories to closure
   for &(ty, nk, np) in &universes {
-    let name = format!("OneOrSet<{}> new_one+append keys={nk} payloads={np}", if ty == 0 { "u8" } else { "Pair" });
-    let st = if ty == 0 {
-      vx::sr::run(ctx, &name, None, |col| OosModel::<u8>::new(ty, nk, np, col))
-    } else {
-      vx::sr::run(ctx, &name, None, |col| OosModel::<Pair>::new(ty, nk, np, col))
-    };
+    let name = format!("OneOrSet<{}> start values + append keys={nk} payloads={np}", ty_name(ty));
+    let st = with_elem!(ty, E => vx::sr::run(ctx, &name, None, |col| OosModel::<E>::new(ty, nk, np, col)));
     let lists = dupfree_lists(ty, nk, np).len() as u64 - 1;
-    ctx.require(st.unique >= lists * 3, &format!("{name}: reached {} states, expected at least {lists} non-empty lists x 3 construction paths", st.unique));
+    ctx.require(
+      st.unique >= lists * OOS_ORIGINS.len() as u64 || !ctx.violation_keys().is_empty(),
+      &format!("{name}: reached {} states, expected at least {lists} non-empty lists x {} construction paths", st.unique, OOS_ORIGINS.len()),
+    );
     for i in 0..st.unique {
       ctx.distinct(&(11u8, ty, nk, np, i));
     }
   }
 
   // ---- (b) OrderedSet constructors
-  let n_vec = ctx.by_tier(5usize, 6);
+  let n_vec = ctx.by_tier(5usize, 7);
   let n_arr = ctx.by_tier(4usize, 5);
   let mut b = Vec::new();
-  for (ty, nk, np) in [(0u8, 3u8, 1u8), (1, 2, 2)] {
+  for (ty, nk, np) in [(0u8, 3u8, 1u8), (1, 2, 2), (2, 2, 2)] {
     let alpha = universe(ty, nk, np);
     for items in vectors(&alpha, n_vec) {
       b.push(Case::Build { target: Target::Set, ty, via: Via::FromVec, items: items.clone() });
@@ -1302,38 +1603,49 @@ fn generate(ctx: &Ctx) {
       }
     }
   }
-  run_cases(ctx, "OrderedSet from vectors (TryFrom<Vec>, serde, FromIterator x 9 size-hint behaviours)", &b);
+  run_cases(ctx, "OrderedSet from vectors (TryFrom<Vec>, serde, FromIterator x 16 size-hint behaviours)", &b);
 
   // ---- (d) OneOrSet constructors, serde, map
   let mut d = Vec::new();
-  for (ty, nk, np) in [(0u8, 3u8, 1u8), (1, 2, 2), (1, 3, 2)] {
+  for (ty, nk, np) in [(0u8, 3u8, 1u8), (1, 2, 2), (1, 3, 2), (2, 2, 3), (0, 5, 1)] {
     let alpha = universe(ty, nk, np);
-    for items in vectors(&alpha, n_arr.max(3)) {
+    for items in vectors(&alpha, if nk == 5 { 5 } else { n_arr }) {
+      // the 5-key universe is there for the longer duplicate-free lists only
+      if nk == 5 && !unique(&items) {
+        continue;
+      }
       d.push(Case::Build { target: Target::OneOrSet, ty, via: Via::FromVec, items: items.clone() });
       d.push(Case::Build { target: Target::OneOrSet, ty, via: Via::Json, items: items.clone() });
+      if items.len() == 1 {
+        d.push(Case::Build { target: Target::OneOrSet, ty, via: Via::FromOne, items: items.clone() });
+      }
       if unique(&items) {
-        d.push(Case::Build { target: Target::OneOrSet, ty, via: Via::NewSet, items: items.clone() });
-        d.push(Case::Build { target: Target::OneOrSet, ty, via: Via::TryFromSet, items: items.clone() });
+        for o in 0..OPERANDS.len() as u8 {
+          d.push(Case::Build { target: Target::OneOrSet, ty, via: Via::NewSet(o), items: items.clone() });
+          d.push(Case::Build { target: Target::OneOrSet, ty, via: Via::TryFromSet(o), items: items.clone() });
+        }
         if !items.is_empty() {
-          for f in 0..FUNS.len() as u8 {
-            d.push(Case::Map { ty, items: items.clone(), f, fail: Fail::Never });
-            for k in 0..nk {
-              d.push(Case::Map { ty, items: items.clone(), f, fail: Fail::OnKey(k) });
-            }
-            for n in 0..=items.len() as u8 {
-              d.push(Case::Map { ty, items: items.clone(), f, fail: Fail::OnCall(n) });
+          for src in 0..MAP_SOURCES.len() as u8 {
+            for f in 0..FUNS.len() as u8 {
+              d.push(Case::Map { ty, src, items: items.clone(), f, fail: Fail::Never });
+              for k in 0..nk {
+                d.push(Case::Map { ty, src, items: items.clone(), f, fail: Fail::OnKey(k) });
+              }
+              for n in 0..=items.len() as u8 {
+                d.push(Case::Map { ty, src, items: items.clone(), f, fail: Fail::OnCall(n) });
+              }
             }
           }
         }
       }
     }
   }
-  run_cases(ctx, "OneOrSet constructors + serde arrays + map/try_map", &d);
+  run_cases(ctx, "OneOrSet constructors (x 5 operand paths) + serde arrays + map/try_map (x 3 source paths)", &d);
 
   // ---- (e) OneOrMany
   let n_push = ctx.by_tier(5usize, 7);
   let mut e = Vec::new();
-  for (ty, nk, np) in [(0u8, 3u8, 1u8), (1, 2, 2)] {
+  for (ty, nk, np) in [(0u8, 3u8, 1u8), (1, 2, 2), (2, 2, 2)] {
     let alpha = universe(ty, nk, np);
     let mut starts = vec![Start::Default, Start::RawMany(vec![]), Start::RawMany(vec![alpha[0]]), Start::RawMany(vec![alpha[0], alpha[0]])];
     starts.extend(alpha.iter().map(|c| Start::One(c.0, c.1)));
@@ -1350,17 +1662,20 @@ fn generate(ctx: &Ctx) {
       }
     }
   }
-  run_cases(ctx, "OneOrMany push sequences + From<Vec> + FromIterator x 9 size-hint behaviours + serde arrays", &e);
+  run_cases(ctx, "OneOrMany push sequences + From<Vec> + FromIterator x 16 size-hint behaviours + serde arrays", &e);
 
   // ---- scalars and malformed JSON on all three types
   let mut r = Vec::new();
-  for ty in [0u8, 1] {
-    let mut texts: Vec<String> = universe(ty, 3, 2).iter().map(|c| if ty == 0 { ejson::<u8>(*c) } else { ejson::<Pair>(*c) }).collect();
+  for ty in [0u8, 1, 2] {
+    let mut texts: Vec<String> = universe(ty, 3, 3).iter().map(|c| with_elem!(ty, E => ejson::<E>(*c))).collect();
     texts.extend(
       [
         "null", "true", "\"0\"", "\"a\"", "{}", "[[]]", "[[0]]", "[null]", "[0,null]", "[0,\"a\"]", "256", "-1", "1.5", "[256]", "[0,256]", "[-1]", "0 ", " [0 , 1] ", "[0,1,]", "[0", "",
         "{\"k\":0}", "{\"p\":\"a\"}", "{\"k\":0,\"p\":\"a\",\"x\":1}", "{\"p\":\"a\",\"k\":0}", "{\"k\":0,\"p\":\"ab\"}", "{\"k\":0,\"k\":1,\"p\":\"a\"}", "[{\"k\":0,\"p\":\"a\"},{\"p\":\"b\",\"k\":0}]",
         "[{\"k\":0,\"p\":\"a\"},0]", "[0,\"a\"]", "[[0,\"a\"]]", "[[0,\"a\"],[0,\"b\"]]", "[[0,\"a\"],[1,\"b\"]]",
+        // nested collections: shapes outside the universe, the inner collection malformed, duplicate outer keys
+        "{\"k\":0,\"m\":5}", "{\"k\":0,\"m\":[5]}", "{\"k\":0,\"m\":[[0]]}", "{\"k\":0,\"m\":null}", "{\"m\":[],\"k\":0}", "[{\"k\":0,\"m\":[]},{\"k\":0,\"m\":0}]", "[{\"k\":0,\"m\":[]},{\"k\":1,\"m\":[1,1]}]",
+        "[{\"k\":0,\"m\":[]}]", "[{\"k\":0,\"m\":{}}]",
       ]
       .map(String::from),
     );
@@ -1373,10 +1688,14 @@ fn generate(ctx: &Ctx) {
   run_cases(ctx, "bare elements and malformed JSON on OrderedSet / OneOrSet / OneOrMany", &r);
 
   ctx.bound("set_history_universes(ty,keys,payloads)", &universes);
+  ctx.bound("set_construction_paths", ORIGINS);
+  ctx.bound("oneorset_construction_paths", OOS_ORIGINS);
+  ctx.bound("oneorset_operand_paths", OPERANDS);
+  ctx.bound("map_source_paths", MAP_SOURCES);
   ctx.bound("vector_length_max", n_vec);
-  ctx.bound("oneorset_array_length_max", n_arr.max(3));
+  ctx.bound("oneorset_array_length_max", n_arr);
   ctx.bound("push_sequence_length_max", n_push);
-  ctx.bound("size_hint_behaviours", HINTS.map(|h| h.0));
+  ctx.bound("size_hint_behaviours", HINTS);
   ctx.bound("map_functions", FUNS);
 }
 
